@@ -13,7 +13,7 @@ import (
 )
 
 func init() {
-	register("C14", "Wall-clock behaviour is NOT decided. Decided necessary conditions in handleCleanup (pkg/processor SSA): (delete-classes) every delete of an aggregation entry is classified by must-hold or disjunctive edge facts as late (unsubmitted, own VAA present, older than the settlement time AND a quorum VAA for its id is in the store), submitted-expired (submitted and >= 1 h), exhausted (retry counter >= the signed budget when ourMsg != nil, >= the unsigned budget when ourMsg == nil) or never-observed (ourMsg == nil, >= 5 min, last retry >= retryTime ago) — hence an entry the node has signed and not submitted is deleted only when stored or exhausted; (retry-effects) on the retry branch every path posts a re-observation request for (ourVAA.EmitterChain, txHash), re-sends ourMsg, increments retryCount and sets lastRetry, under the guards age >= 5 min and since(lastRetry) >= retryTime; constants retryTime == 5 min and settlementTime == 30 s are read from the source; (progress) retryCount and lastRetry are written only on that branch, so the counter the expiry tests is the one the retry increments.", c14)
+	register("C14", "Wall-clock behaviour is NOT decided. Decided necessary conditions in handleCleanup (pkg/processor SSA): (delete-classes) every delete of an aggregation entry is classified by must-hold or disjunctive edge facts as late (unsubmitted, own VAA present, older than the settlement time AND a quorum VAA for its id is in the store), submitted-expired (submitted and >= 1 h), exhausted (retry counter >= the signed budget when ourMsg != nil, >= the unsigned budget when ourMsg == nil) or never-observed (ourMsg == nil, >= 5 min, last retry >= retryTime ago) — hence an entry the node has signed and not submitted is deleted only when stored or exhausted; (retry-effects) on the retry branch every path posts a re-observation request for (ourVAA.EmitterChain, txHash), re-sends ourMsg, increments retryCount and sets lastRetry, under the guards age >= 5 min and since(lastRetry) >= retryTime; constants retryTime == 5 min and settlementTime == 30 s are read from the source; (progress) retryCount and lastRetry are written only on that branch, so the counter the expiry tests is the one the retry increments. Every store to retryCount adds exactly one.", c14)
 }
 
 func c14(c *Ctx) {
